@@ -1173,6 +1173,11 @@ cfg_transaction! {
     }
 }
 
+#[cfg(feature = "verif-hooks")]
+pub(crate) fn verif_consecutive_chunk_indices(delivery_ids: &[DeliveryNumber]) -> Vec<usize> {
+    consecutive_chunk_indices(delivery_ids)
+}
+
 fn consecutive_chunk_indices(delivery_ids: &[DeliveryNumber]) -> Vec<usize> {
     delivery_ids
         .windows(2)
